@@ -1,6 +1,7 @@
 package sym
 
 import (
+	"fmt"
 	"golang.org/x/tools/go/ssa"
 
 	"verif/engine/smt"
@@ -23,10 +24,14 @@ func timeIntrinsic(ex *Exec, fn *ssa.Function, args []Value, site string) Value 
 		h, mi, s := args[3].(*T), args[4].(*T), args[5].(*T)
 		off := ex.k64(0)
 		dst := C.False
+		var next, hasNext *T
 		if l, ok := args[7].(Opaque); ok && l.Kind == "loc" {
 			off = l.Data["off"].(*T)
 			if x, ok := l.Data["dst"].(*T); ok {
 				dst = x
+			}
+			if x, ok := l.Data["next"].(*T); ok {
+				next, hasNext = x, l.Data["hasNext"].(*T)
 			}
 		}
 		k := func(v int64) *T { return ex.k64(v) }
@@ -42,7 +47,11 @@ func timeIntrinsic(ex *Exec, fn *ssa.Function, args []Value, site string) Value 
 			ex.assume(inRange)
 		}
 		ex.opaqueID++
-		return Opaque{Kind: "time", ID: ex.opaqueID, Data: map[string]Value{"Y": y, "M": mo, "D": d, "h": h, "m": mi, "s": s, "off": off, "dst": dst}}
+		tv := Opaque{Kind: "time", ID: ex.opaqueID, Data: map[string]Value{"Y": y, "M": mo, "D": d, "h": h, "m": mi, "s": s, "off": off, "dst": dst}}
+		if next != nil {
+			tv.Data["next"], tv.Data["hasNext"] = next, hasNext
+		}
+		return tv
 	}
 	name := fn.Name()
 	if len(args) > 0 {
@@ -64,6 +73,24 @@ func timeIntrinsic(ex *Exec, fn *ssa.Function, args []Value, site string) Value 
 				return ex.k64(0)
 			case "Zone":
 				return Tuple{ex.strConst("zone"), ex.timeField(t, "off")}
+			case "IsZero":
+				if x, ok := t.Data["isZero"].(*T); ok {
+					return x
+				}
+				return C.False
+			case "ZoneBounds":
+				// the rule in force at t: began before every instant considered (start: the zero time is NOT returned by
+				// Go for a zone with a first transition, so start is an opaque instant), ends at an instant at which the
+				// offset "next" is in force - or never (zero time)
+				mk := func(off, isZero *T) Opaque {
+					ex.opaqueID++
+					f := func() *T { ex.nfresh++; return C.Var(fmt.Sprintf("zb!%d", ex.nfresh), smt.BV(64)) }
+					return Opaque{Kind: "time", ID: ex.opaqueID, Data: map[string]Value{"Y": f(), "M": f(), "D": f(), "h": f(), "m": f(), "s": f(), "off": off, "dst": C.False, "isZero": isZero}}
+				}
+				if nx, ok := t.Data["next"].(*T); ok {
+					return Tuple{mk(t.Data["off"].(*T), C.False), mk(nx, C.BNot(t.Data["hasNext"].(*T)))}
+				}
+				return Tuple{mk(t.Data["off"].(*T), C.True), mk(t.Data["off"].(*T), C.True)}
 			case "IsDST":
 				if x, ok := t.Data["dst"].(*T); ok {
 					return x // zones built with vrt.ZoneDST carry their flag; fixed-offset zones are never DST
